@@ -347,11 +347,19 @@ def small_diff(a, b, limit=14):
 
 
 # ------------------------------------------------------------------ child processes
+def _die_with_parent():
+    try:
+        import ctypes
+        ctypes.CDLL(None).prctl(1, 15)          # PR_SET_PDEATHSIG, SIGTERM
+    except Exception:      # noqa
+        pass
+
+
 def _run_child(repo, job, seed="0", timeout=3000):
     env = dict(os.environ, PYTHONHASHSEED=str(seed), VERIF_REPO=repo)
     code = ("import sys; sys.path[:0] = [%r, %r]; from checks import c22; c22._child_main()" % (repo, VERIF))
     p = subprocess.run([sys.executable, "-c", code], input=json.dumps(job), capture_output=True, text=True,
-                       env=env, timeout=timeout, cwd=VERIF)
+                       env=env, timeout=timeout, cwd=VERIF, preexec_fn=_die_with_parent)
     if p.returncode != 0:
         raise RuntimeError("C22 child failed (%s): %s" % (job.get("op"), p.stderr[-1500:]))
     return json.loads(p.stdout)
@@ -375,7 +383,7 @@ def _child_main():
                     raw = f.read()
             out[name] = [len(c.get_methods()) for c in dex.DEX(raw).get_classes()]
     elif op == "slice":
-        out = child_slice(repo, job["dex"], job["lo"], job["hi"], job.get("texts", False))
+        out = child_slice(repo, job["dex"], job.get("lo"), job.get("hi"), job.get("texts", False), job.get("only"))
     elif op == "eval":
         out = eval_witness(repo, job["w"])
     elif op == "hist":
@@ -387,13 +395,15 @@ def _child_main():
     sys.stdout.write(json.dumps(out))
 
 
-def child_slice(repo, name, lo, hi, texts=False):
-    """default assignment over classes [lo, hi): {"c": [class text hash], "m": [[method text hash]]}"""
+def child_slice(repo, name, lo, hi, texts=False, only=None):
+    """default assignment over classes [lo, hi) (or the listed class indices):
+    {"c": [class text hash], "m": [[method text hash]]}  (texts instead of hashes if texts=True)"""
     install()
     d, dx, _ = load(repo, name)
     cs, ms = [], []
-    for c in d.get_classes()[lo:hi]:
-        ct, mt = run_class(dx, c)
+    classes = d.get_classes()
+    for ci in (only if only is not None else range(lo, hi)):
+        ct, mt = run_class(dx, classes[ci])
         cs.append(ct if texts else th(ct))
         ms.append(mt if texts else [th(t) for t in mt])
     return {"c": cs, "m": ms}
@@ -535,9 +545,12 @@ def hist_corpus(repo):
 
 def hist_server(repo, corpus, seqs):
     """Pristine process: parse + analyse, decompile nothing; then one fork per history.  -> [[text hash per step]]"""
+    import gc
     install()
+    gc.disable()
     for name, ci, mi in corpus:
         _hist_load(repo, name)
+    gc.freeze()                   # forked children must not touch (copy) the parsed DEX pages
     out = []
     for seq in seqs:
         r, wfd = os.pipe()
@@ -778,22 +791,23 @@ def _run_S(ctx, acc, cands, name, lo, hi, sds):
         acc.traces += 1
         acc.n += nm
         acc.nt_disjoint += nm
-        for k in range(hi - lo):
-            c = classes[lo + k]
-            if got["m"][k] != base["m"][k] or got["c"][k] != base["c"][k]:
-                # fetch the texts to classify
-                w = {"kind": "seed", "dex": name, "class": lo + k, "seed": s, "method": None}
-                diffs = [i for i in range(len(base["m"][k])) if got["m"][k][i] != base["m"][k][i]]
-                if diffs:
-                    w["method"] = diffs[0]
-                w2 = dict(w, kind="classtext")
-                a = _run_child(ctx.repo, {"op": "eval", "w": w2}, seed="0")["a"]
-                b = _run_child(ctx.repo, {"op": "eval", "w": w2}, seed=str(s))["a"]
-                acc.state((name, str(c.get_name()), w["method"], th(b)))
-                if a != b:
-                    _viol(acc, cands, "hashseed", name, w, a, b, str(c.get_name()), "PYTHONHASHSEED=%d vs 0" % s)
-                else:
-                    acc.harness_error("hash-seed difference for %s class %d seed %d vanished on re-evaluation" % (name, lo + k, s))
+        bad = [lo + k for k in range(hi - lo) if got["m"][k] != base["m"][k] or got["c"][k] != base["c"][k]]
+        if not bad:
+            continue
+        tb = child_slice(ctx.repo, name, None, None, True, bad)
+        tg = _run_child(ctx.repo, {"op": "slice", "dex": name, "texts": True, "only": bad}, seed=str(s))
+        for x, ci in enumerate(bad):
+            c = classes[ci]
+            diffs = [i for i in range(len(tb["m"][x])) if tg["m"][x][i] != tb["m"][x][i]]
+            w = {"kind": "seed", "dex": name, "class": ci, "seed": s, "method": diffs[0] if diffs else None}
+            a, b = (tb["m"][x][diffs[0]], tg["m"][x][diffs[0]]) if diffs else (tb["c"][x], tg["c"][x])
+            acc.state((name, str(c.get_name()), w["method"], th(b)))
+            if a != b:
+                _viol(acc, cands, "hashseed", name, w, a, b,
+                      mid(c, diffs[0], c.get_methods()[diffs[0]]) if diffs else str(c.get_name()),
+                      "PYTHONHASHSEED=%d vs 0" % s)
+            else:
+                acc.harness_error("hash-seed difference for %s class %d seed %d vanished on re-evaluation" % (name, ci, s))
     if lo == 0:
         acc.sample({"part": "S", "dex": name, "classes": [lo, hi], "seeds": [0] + list(sds), "methods": nm})
 
